@@ -42,5 +42,6 @@ SEEDED = [
     ("C03-7", "C03-FILL"),
     ("C03-8", "C03-SEP"),
     ("C03-9", "C03-NUM"),
+    ("C03-10", "C03-SEP"),
 ]
 MUTANTS = list(MUTANTS) + [_P("seed-" + sid, _os.path.join(_SEEDS, sid, "patch.diff"), rule) for sid, rule in SEEDED if _os.path.exists(_os.path.join(_SEEDS, sid, "patch.diff"))]
